@@ -225,12 +225,19 @@ def _raise_site(e):
 
 
 def _has_nonterminal_measurement(c):
+    """A measuring operation (a measurement, or a sub-circuit holding one) with a later operation on one of its qubits - at the top
+    level or, recursively, inside a sub-circuit (also: a measuring sub-circuit that is repeated)."""
     ops_ = [(i, op) for i, m in enumerate(c) for op in m]
     for k, (i, op) in enumerate(ops_):
         if cirq.is_measurement(op):
             qs = set(op.qubits)
             if any(j > i and qs & set(other.qubits) for j, other in ops_[k + 1:]):
                 return True
+            u = op.untagged
+            if isinstance(u, cirq.CircuitOperation):
+                reps = u.repetitions
+                if (isinstance(reps, (int, np.integer)) and abs(int(reps)) > 1) or _has_nonterminal_measurement(u.circuit):
+                    return True
     return False
 
 
